@@ -53,7 +53,7 @@ CLAIMS = {
    note="reachable sets come from redb's own tree walk via hooks", ref="DESIGN.md 4/C06"),
  "C07": dict(cat="model_checking", tech="Kv.tla savepoint rules + Pager.tla W_Restore checked by TLC; TLC trace validation of random savepoint histories; crash enumeration with persistent savepoints",
    text="every savepoint call result and all later contents are judged against Kv.tla (restore exact, later savepoints invalid on commit, nothing on abort, persistent ones survive reopen/crash); page accounting after every transaction.",
-   note="restored contents of persistent savepoints after crash are checked through listing, not by restoring each in a scratch copy", ref="DESIGN.md 4/C07"),
+   note="persistent savepoints of crash images are restored on copies of sampled images, not of every image", ref="DESIGN.md 4/C07"),
  "C01": dict(cat="fault_enumeration", tech="TLA+ spec (Kv.tla CrashAtomic) as oracle for exhaustive crash-point enumeration: every crash image of every backend-operation boundary is reopened by redb and the observation is validated by TLC trace validation",
    text="fault enumeration judged by the TLA+ oracle: all crash points of recorded histories, all subsets of few unsynced writes (class representatives beyond), byte-prefix and sector tears, crashes during recovery; each observation must be exactly one commit point between the last acknowledged durable commit and the last requested one.",
    note="trusted: storage model of docs/design.md, TLC, harness crash-image builder; large unsynced sets are sampled", ref="DESIGN.md 4/C01"),
